@@ -38,12 +38,23 @@ def width_cases(draw):
     m = draw(st.integers(1, 6))
     use_reg = draw(st.booleans())
     nodes = []
+    # a small tree of non-blocking set-up calls; each rendezvous call hangs off one of them (or none), so
+    # the m pairwise independent rendezvous calls sit at different depths of the graph
+    nsetup = draw(st.sampled_from([0, 0, 1, 2, 3]))
+    for i in range(nsetup):
+        par = draw(st.sampled_from([None] + list(range(i))))
+        nodes.append({"k": "call", "args": [] if par is None else [{"n": par}], "kwargs": [], "deps": [], "scope": [],
+                      "stored": use_reg and draw(st.booleans()), "beh": {"t": "ok"}, "side": None})
     for i in range(m):
-        nodes.append({"k": "call", "args": [], "kwargs": [], "deps": [], "scope": [], "stored": use_reg and draw(st.booleans()),
+        par = draw(st.sampled_from([None] + list(range(nsetup))))
+        as_dep = draw(st.booleans())
+        nodes.append({"k": "call", "args": [] if par is None or as_dep else [{"n": par}], "kwargs": [],
+                      "deps": [{"n": par}] if par is not None and as_dep else [], "scope": [],
+                      "stored": use_reg and draw(st.booleans()),
                       "beh": {"t": "ok"}, "side": None, "latch": True})
     g = specs.Gen(draw, registry=use_reg, opaque=False)
     g.nodes = nodes
-    g.refs = [{"n": i} for i in range(m)]
+    g.refs = [{"n": i} for i in range(len(nodes))]
     g.hashable_refs = list(g.refs)
     extra = draw(st.integers(0, 4))
     for _ in range(extra):
@@ -140,7 +151,9 @@ def check_width(ctx, case, record):
     out = harness.execute(lambda: w.run(cfg, registry=case["registry"]), sc)
     case2 = dict(case, sched=harness.with_trace(sc, out))
     if record:
-        ctx.case(case, wk >= 2 and m >= wk, common.sched_classes(case, out) + ["fam:width", f"target:{target}"])
+        depths = {len(specs.strict_ancestors(spec, i)) for i, nd in enumerate(spec["nodes"]) if nd.get("latch")}
+        ctx.case(case, wk >= 2 and m >= wk, common.sched_classes(case, out) + ["fam:width", f"target:{target}"]
+                 + (["rendezvous_at_several_depths"] if len(depths) > 1 else []))
     if holder.get("l") is not None and holder["l"].timed_out:
         raise runner.Inconclusive("real-thread latch did not open within 8 s")
     if out.verdict == "deadlock":
